@@ -7,8 +7,16 @@
 //!   rv-sandbox one <case-json>             run one case here, print its observation
 //!   rv-sandbox --child                     the sandboxed child (rink_sandbox::become_child)
 //!
-//! A case is `{"plan":[kind..], "gaps":[ms..], "mode":"async"|"block", "timeout_ms":n, "limit":bytes}`
-//! with kinds ok | panic | overrun | oom | exit | big.  The observation lists, per request, the
+//! A case is `{"plan":[kind..], "gaps":[ms..], "mode":"async"|"block", "timeout_ms":n, "limit":bytes,
+//! "slow_ms":n, "abandon_ms":n, "big_bytes":n}` with request kinds ok | panic | overrun | oom | exit | big |
+//! slow (handler sleeps slow_ms, within the limit) | bigin / bigout (payload only in the request / only in
+//! the reply) and the environment events
+//!   abandon / abover   the caller drops the future of `execute(slow)` / `execute(overrun)` after abandon_ms
+//!                      (reply class `abandoned`; if the call returned earlier, what it returned)
+//!   kill               the child is killed from outside (SIGKILL) while it is idle: the harness waits until
+//!                      the parent task is waiting for a request, kills the pid of the last `spawned` event and,
+//!                      when the next entry has a gap, waits until that process is gone (reply class `env`)
+//! The observation lists, per plan entry, the
 //! reply class (ok + echoed id + own-result flag + child pid / panic / timeout / crashed /
 //! send_failed / recv_failed / hang / other + error text) and the protocol events logged through
 //! the guarded hook `rink_sandbox::verif::event` plus the caller's own call/ret marks.
@@ -38,6 +46,9 @@ enum Req {
     Alloc(u32, usize),
     Exit(u32),
     Big(u32, Vec<u8>),
+    SlowAdd(u32, u64, i64, i64),
+    BigIn(u32, Vec<u8>),
+    BigOut(u32, u32),
 }
 
 #[derive(Serialize, Deserialize)]
@@ -46,6 +57,7 @@ enum Res {
     Slept { id: u32, pid: u32 },
     Allocated { id: u32, pid: u32, sum: u64 },
     Echo { id: u32, pid: u32, data: Vec<u8>, checksum: u64 },
+    Digest { id: u32, pid: u32, len: u32, checksum: u64 },
 }
 
 /// Like cli/src/service.rs (RinkService), the service keeps state behind a mutex that is held for the whole of
@@ -110,6 +122,16 @@ impl Service for TestSvc {
                 let checksum = checksum(&data);
                 Res::Echo { id, pid, data, checksum }
             }
+            Req::SlowAdd(id, ms, a, b) => {
+                std::thread::sleep(Duration::from_millis(ms));
+                Res::Sum { id, value: a + b, pid }
+            }
+            Req::BigIn(id, data) => Res::Digest { id, pid, len: data.len() as u32, checksum: checksum(&data) },
+            Req::BigOut(id, n) => {
+                let data = payload(id, n as usize);
+                let checksum = checksum(&data);
+                Res::Echo { id, pid, data, checksum }
+            }
         }
     }
 }
@@ -131,28 +153,44 @@ fn payload(id: u32, n: usize) -> Vec<u8> {
 
 const BIG_BYTES: usize = 200_000; // > 64 KiB pipe buffer: request and reply need several write/read steps
 
-fn make_req(kind: &str, id: u32, timeout_ms: u64, limit: usize) -> Req {
+#[derive(Clone, Copy)]
+struct Params {
+    timeout_ms: u64,
+    limit: usize,
+    slow_ms: u64,
+    abandon_ms: u64,
+    big_bytes: usize,
+}
+
+fn make_req(kind: &str, id: u32, p: &Params) -> Req {
     match kind {
         "ok" => Req::Add(id, 100 + id as i64, 7 * id as i64),
+        "slow" | "abandon" => Req::SlowAdd(id, p.slow_ms, 100 + id as i64, 7 * id as i64),
         "panic" => Req::Panic(id),
-        "overrun" => Req::Sleep(id, timeout_ms * 20),
-        "oom" => Req::Alloc(id, limit * 2),
+        "overrun" | "abover" => Req::Sleep(id, p.timeout_ms * 20),
+        "oom" => Req::Alloc(id, p.limit * 2),
         "exit" => Req::Exit(id),
-        "big" => Req::Big(id, payload(id, BIG_BYTES)),
+        "big" => Req::Big(id, payload(id, p.big_bytes)),
+        "bigin" => Req::BigIn(id, payload(id, p.big_bytes)),
+        "bigout" => Req::BigOut(id, p.big_bytes as u32),
         other => panic!("unknown request kind {}", other),
     }
 }
 
-fn classify(kind: &str, id: u32, r: Result<rink_sandbox::Response<Res>, Error>) -> Value {
+fn classify(kind: &str, id: u32, p: &Params, r: Result<rink_sandbox::Response<Res>, Error>) -> Value {
     match r {
         Ok(resp) => match resp.result {
             Res::Sum { id: rid, value, pid } => {
-                let own = kind == "ok" && rid == id && value == (100 + id as i64) + 7 * id as i64;
+                let own = matches!(kind, "ok" | "slow" | "abandon") && rid == id && value == (100 + id as i64) + 7 * id as i64;
                 json!({"class": "ok", "res": "sum", "id": rid, "value": value, "pid": pid, "own": own})
             }
             Res::Echo { id: rid, pid, data, checksum: cs } => {
-                let own = kind == "big" && rid == id && data == payload(id, BIG_BYTES) && cs == checksum(&data);
+                let own = matches!(kind, "big" | "bigout") && rid == id && data == payload(id, p.big_bytes) && cs == checksum(&data);
                 json!({"class": "ok", "res": "echo", "id": rid, "len": data.len(), "pid": pid, "own": own})
+            }
+            Res::Digest { id: rid, pid, len, checksum: cs } => {
+                let own = kind == "bigin" && rid == id && len as usize == p.big_bytes && cs == checksum(&payload(id, p.big_bytes));
+                json!({"class": "ok", "res": "digest", "id": rid, "len": len, "pid": pid, "own": own})
             }
             Res::Slept { id: rid, pid } => json!({"class": "ok", "res": "slept", "id": rid, "pid": pid, "own": false}),
             Res::Allocated { id: rid, pid, .. } => {
@@ -172,18 +210,74 @@ fn classify(kind: &str, id: u32, r: Result<rink_sandbox::Response<Res>, Error>) 
     }
 }
 
+const PARENT_EVENTS: [&str; 6] = ["spawned", "handshake_done", "request_written", "response", "delivered", "killed"];
+
+/// (the parent task is waiting for a request: child booted, nothing in flight; pid of the last child spawned)
+fn parent_state() -> (bool, Option<i64>) {
+    let g = EVENTS.lock().unwrap();
+    let last = g.iter().rev().find(|(n, _)| PARENT_EVENTS.contains(&n.as_str()));
+    let idle = matches!(last, Some((n, _)) if n == "handshake_done" || n == "delivered");
+    let pid = g.iter().rev().find(|(n, _)| n == "spawned").map(|(_, v)| *v);
+    (idle, pid)
+}
+
+/// is the process gone (reaped, or a zombie: its pipe ends are closed)?
+fn process_gone(pid: i64) -> bool {
+    match std::fs::read_to_string(format!("/proc/{}/stat", pid)) {
+        Err(_) => true,
+        Ok(s) => match s.rfind(')') {
+            Some(i) => matches!(s[i + 1..].trim_start().chars().next(), Some('Z') | Some('X')),
+            None => false,
+        },
+    }
+}
+
+/// Environment event: the child is killed from outside while it is idle.
+async fn kill_idle_child(id: u32, wait_gone: bool) -> Value {
+    let t = Instant::now();
+    // let the parent task finish what it is doing (restart after a fault, first start): it runs on this thread
+    let mut state = parent_state();
+    while !state.0 && t.elapsed() < Duration::from_secs(3) {
+        async_std::task::sleep(Duration::from_millis(2)).await;
+        state = parent_state();
+    }
+    let (idle, pid) = state;
+    let mut v = json!({"class": "env", "idle": idle, "pid": pid});
+    log_event("envkill", id as i64);
+    if let Some(pid) = pid {
+        let was_gone = process_gone(pid);
+        let rc = unsafe { libc::kill(pid as i32, libc::SIGKILL) };
+        v["already_gone"] = json!(was_gone);
+        v["rc"] = json!(rc);
+        if wait_gone {
+            let t1 = Instant::now();
+            while !process_gone(pid) && t1.elapsed() < Duration::from_secs(5) {
+                std::thread::sleep(Duration::from_millis(1));
+            }
+            v["gone"] = json!(process_gone(pid));
+        }
+    }
+    v
+}
+
 fn run_one(case: &Value) -> Value {
     let plan: Vec<String> = case["plan"].as_array().unwrap().iter().map(|k| k.as_str().unwrap().to_string()).collect();
     let gaps: Vec<u64> = case["gaps"].as_array().map(|a| a.iter().map(|g| g.as_u64().unwrap_or(0)).collect()).unwrap_or_default();
     let block = case["mode"].as_str() == Some("block");
     let timeout_ms = case["timeout_ms"].as_u64().unwrap_or(200);
-    let limit = case["limit"].as_u64().unwrap_or(32 << 20) as usize;
+    let params = Params {
+        timeout_ms,
+        limit: case["limit"].as_u64().unwrap_or(32 << 20) as usize,
+        slow_ms: case["slow_ms"].as_u64().unwrap_or(timeout_ms / 2),
+        abandon_ms: case["abandon_ms"].as_u64().unwrap_or(timeout_ms / 8),
+        big_bytes: case["big_bytes"].as_u64().map(|n| n as usize).unwrap_or(BIG_BYTES),
+    };
     let call_deadline = Duration::from_millis(case["deadline_ms"].as_u64().unwrap_or(5000));
     rink_sandbox::verif::set_event_hook(Some(log_event));
     let t0 = Instant::now();
     let replies = async_std::task::block_on(async {
         let mut replies = vec![];
-        let sandbox = match Sandbox::<TestSvc>::new(TestConfig { timeout_ms, limit }).await {
+        let sandbox = match Sandbox::<TestSvc>::new(TestConfig { timeout_ms, limit: params.limit }).await {
             Ok(s) => s,
             Err(e) => {
                 replies.push(json!({"class": "other", "text": format!("Sandbox::new failed: {}", e)}));
@@ -200,13 +294,22 @@ fn run_one(case: &Value) -> Value {
                     async_std::task::sleep(Duration::from_millis(gap)).await;
                 }
             }
-            let req = make_req(kind, id, timeout_ms, limit);
             let t = Instant::now();
+            if kind == "kill" {
+                let mut v = kill_idle_child(id, gaps.get(i + 1).copied().unwrap_or(0) > 0).await;
+                v["ms"] = json!(t.elapsed().as_millis() as u64);
+                replies.push(v);
+                continue;
+            }
+            let req = make_req(kind, id, &params);
+            // the caller gives up on this request: the future returned by execute is dropped
+            let give_up = if kind == "abandon" || kind == "abover" { Duration::from_millis(params.abandon_ms) } else { call_deadline };
             log_event("call", id as i64);
-            let r = async_std::future::timeout(call_deadline, sandbox.execute(req)).await;
+            let r = async_std::future::timeout(give_up, sandbox.execute(req)).await;
             log_event("ret", id as i64);
             let mut v = match r {
-                Ok(r) => classify(kind, id, r),
+                Ok(r) => classify(kind, id, &params, r),
+                Err(_) if give_up < call_deadline => json!({"class": "abandoned"}),
                 Err(_) => json!({"class": "hang", "text": format!("execute did not return within {:?}", call_deadline)}),
             };
             v["ms"] = json!(t.elapsed().as_millis() as u64);
